@@ -1455,7 +1455,10 @@ func (fr *Frame) applyLoopGhostSet(gs *GhostSet, h, from *ssa.BasicBlock, subst 
 		}
 		idx = append(idx, tv.T)
 	}
-	s, _, _ := e.ghostSort(g)
+	s, _, gres := e.ghostSort(g)
+	if val.IsNil && gres.Ty != nil {
+		val = e.coerceNil(val, gres.Ty)
+	}
 	name := ghostCompName(g)
 	cur := c.comp(fr.st, name, s)
 	c.setComp(fr.st, name, storeN(cur, idx, val.T))
@@ -1494,7 +1497,7 @@ func (fr *Frame) autoFrameInvs(h *ssa.BasicBlock) []autoInv {
 	var out []autoInv
 	for _, n := range names {
 		n := n
-		if n == "alloc" || n == "held" || strings.HasPrefix(n, "RV_") || strings.HasPrefix(n, "recvd") || strings.HasPrefix(n, "closed") {
+		if n == "alloc" || n == "held" || strings.HasPrefix(n, "RV_") || strings.HasPrefix(n, "recvd") || strings.HasPrefix(n, "closed") || c.isLocalGhostComp(n) {
 			continue
 		}
 		at, declared := fr.declMods[n]
